@@ -860,7 +860,7 @@ pub fn concurrent(seed: u64, n: usize, st: &mut Stats) -> Vec<String> {
                     }
                     let mut got = Vec::new();
                     for _ in 0..total {
-                        match tokio::time::timeout(Duration::from_secs(60), conn.next()).await {
+                        match tokio::time::timeout(Duration::from_secs(10), conn.next()).await {
                             Ok(Some(m)) => got.push(m),
                             _ => break,
                         }
